@@ -95,6 +95,17 @@ def whole_query_cases(backend):
         ("wrong-label-count-with-repeat-3-for-1", f"ResultTTree(ds.Select(lambda e: ({c}.Count(),)), ['x', 'x', 'x'], 'tree', 'file.root')"),
         ("wrong-label-count-with-repeat-per-object", f"ResultTTree(ds.SelectMany(lambda e: {c}).Select(lambda j: (j.pt(), j.eta())), ['pt', 'eta', 'pt'], 'tree', 'file.root')"),
         ("not-a-call", "ds"),
+    ]
+    # an Aggregate whose initial value is not a number the backend can accumulate into (a pointer, declared through metadata)
+    for tname in ("float*", "double*", "int**", "int*"):
+        mdm = {"metadata_type": "add_method_type_info", "type_string": a.primary_cls, "method_name": "offs", "return_type": tname}
+        mdf = {"metadata_type": "add_cpp_function", "name": "vmoffs", "include_files": [], "arguments": ["x"], "code": ["auto result = &x;"], "return_type": tname}
+        cases += [
+            (f"aggregate-pointer-seed-method:{tname}", f"MetaData(ds, {mdm!r}).Select(lambda e: {c}.Select(lambda j: j.tags().Aggregate(j.offs(), lambda acc, v: acc + v)))"),
+            (f"aggregate-pointer-seed-function:{tname}", f"MetaData(ds, {mdf!r}).Select(lambda e: {c}.Select(lambda j: j.tags().Aggregate(vmoffs(j.pt()), lambda acc, v: acc + v)))"),
+            (f"aggregate-pointer-seed-event:{tname}", f"MetaData(ds, {mdm!r}).Select(lambda e: {c}.Select(lambda j: j.pt()).Aggregate({c}.First().offs(), lambda acc, v: acc + v))"),
+        ]
+    cases += [
         ("unknown-metadata-type", f"MetaData(ds, {{'metadata_type': 'no_such_thing'}}).Select(lambda e: {c}.Count())"),
         ("missing-metadata-type", f"MetaData(ds, {{'name': 'x'}}).Select(lambda e: {c}.Count())"),
         ("unknown-toplevel-function", f"Frobnicate(ds.Select(lambda e: {c}.Count()))"),
